@@ -114,10 +114,9 @@ theorem userinfoWf_facts (u p : Bytes) (h : userinfoWf (some (u, p)) = true) :
   exact ⟨noneOf_not_mem h.1 (by simp), noneOf_not_mem h.2 (by simp), noneOf_not_mem h.1 (by simp),
     noneOf_not_mem h.2 (by simp), noneOf_not_mem h.1 (by simp), noneOf_not_mem h.2 (by simp)⟩
 
-/-- `Url._parse` on `host [":" port]` (no userinfo; `raw` is the text the port-less IPv6 branch falls back to) -/
+/-- `Url._parse` on `host [":" port]` (after the userinfo, if any, has been split off) -/
 theorem hostPort_wf (raw : Bytes) (u p : Option Bytes) (h : Host) (port : Option Nat)
-    (hw : h.wf = true) (hp : portWf port = true)
-    (hraw : h.isV6 = true → port = none → raw = h.text) :
+    (hw : h.wf = true) (hp : portWf port = true) :
     hostPort raw u p (h.text ++ renderPort port) = .ok (u, p, h.text, port.map Int.ofNat) := by
   obtain ⟨_, _, _, hu8, _, hcol⟩ := Host.wf_facts h hw
   obtain ⟨_, _, hport⟩ := renderPort_facts port hp
@@ -136,20 +135,15 @@ theorem hostPort_wf (raw : Bytes) (u p : Option Bytes) (h : Host) (port : Option
       have hc := Host.wf_v6Class hw
       cases port with
       | none =>
-        have := hraw hv rfl
-        subst this
         simp only [renderPort, List.append_nil, Option.map_none, Host.text]
-        rw [hostPort_v6_noport _ u p t hc]
-        have hu : utf8Valid ([LBR] ++ t ++ [RBR]) = true := hu8
-        rw [if_pos hu, wrapV6_of_head_lbr _ (by simp)]
+        exact hostPort_v6_noport raw u p t hc
       | some n =>
         obtain ⟨e, hcn, hi⟩ := hport n rfl
         rw [e]; exact hostPort_v6_port raw u p t _ _ hc hcn hi
 
-/-- **`Url._parse` on a well-formed authority** -/
+/-- **`Url._parse` on a well-formed authority** (every combination of userinfo, host kind and port) -/
 theorem parseAuthority_wf (ui : Option (Bytes × Bytes)) (h : Host) (port : Option Nat)
-    (hu : userinfoWf ui = true) (hw : h.wf = true) (hp : portWf port = true)
-    (hg : (ui.isSome && h.isV6 && port.isNone) = false) :
+    (hu : userinfoWf ui = true) (hw : h.wf = true) (hp : portWf port = true) :
     parseAuthority (renderUserinfo ui ++ h.text ++ renderPort port) =
       .ok (ui.map (·.1), ui.map (·.2), h.text, port.map Int.ofNat) := by
   obtain ⟨hat, _, _, _, _, _⟩ := Host.wf_facts h hw
@@ -158,7 +152,7 @@ theorem parseAuthority_wf (ui : Option (Bytes × Bytes)) (h : Host) (port : Opti
   | none =>
     simp only [renderUserinfo, List.nil_append, Option.map_none]
     rw [parseAuthority_no_userinfo _ (by simp [hat, hpat])]
-    exact hostPort_wf _ none none h port hw hp (fun _ hn => by subst hn; simp [renderPort])
+    exact hostPort_wf _ none none h port hw hp
   | some up =>
     obtain ⟨u, p⟩ := up
     obtain ⟨h1, h2, h3, h4, _, _⟩ := userinfoWf_facts u p hu
@@ -166,8 +160,6 @@ theorem parseAuthority_wf (ui : Option (Bytes × Bytes)) (h : Host) (port : Opti
         u ++ COLON :: p ++ AT :: (h.text ++ renderPort port) := by simp [renderUserinfo]
     rw [e, parseAuthority_userinfo u p _ h1 h2 h3 h4]
     simp only [Option.map_some]
-    apply hostPort_wf _ _ _ h port hw hp
-    intro hv hn
-    simp [hv, hn] at hg
+    exact hostPort_wf _ _ _ h port hw hp
 
 end Px.Connect
